@@ -130,6 +130,8 @@ typedef struct {
 extern sim_fault_ctx sim_fctx;
 void sim_install_fault_handlers(void);
 uint64_t sim_image_base(void);
+/** image-relative pc, or 0 if the address is outside the main image */
+uint64_t sim_rel_pc(uint64_t pc);
 
 #ifdef __cplusplus
 }
